@@ -182,7 +182,9 @@ def replay_cmp(pid, path):
             f.write(json.dumps(e) + "\n")
     run_harness(binp, ["replay", "cmp", inp, "--out", out])
     files = sorted(glob.glob(os.path.join(out, "**", "*.ndjson"), recursive=True))
-    files = [x for x in files if not x.endswith("in.ndjson")]
+    files = [x for x in files if not x.endswith("in.ndjson") and os.path.getsize(x) > 0]
+    if not files:
+        raise ToolError("the replay produced no events")
     res = run_tv("TraceCmp.tla", "TraceCmp.cfg", files)
     cache = {}
     for r in res:
@@ -272,7 +274,9 @@ def replay_obj(pid, path):
         for e in obj["events"]:
             f.write(json.dumps(e) + "\n")
     run_harness(binp, ["replay", "obj", inp, "--out", out])
-    files = [x for x in sorted(glob.glob(os.path.join(out, "*.ndjson"))) if not x.endswith("in.ndjson")]
+    files = [x for x in sorted(glob.glob(os.path.join(out, "*.ndjson"))) if not x.endswith("in.ndjson") and os.path.getsize(x) > 0]
+    if not files:
+        raise ToolError("the replay produced no events")
     res = run_tv("TraceObj.tla", "TraceObj.cfg", files)
     cache = {}
     for r in res:
